@@ -35,6 +35,8 @@ class GenConfig:
         self.n_bools = (0, 1)
         self.n_strs = (0, 2)
         self.n_enums = (0, 1)
+        self.n_raws = (0, 0)
+        self.raw_types = ["uint8_t", "uint16_t", "uint32_t", "uint64_t", "int32_t", "double"]
         self.n_hooks = (0, 2)
         self.n_fcodes = (0, 2)
         self.n_ycodes = (1, 2)
@@ -180,6 +182,7 @@ class Env:
         self.enums = [o for o in prog.outs if o[0] == "enum"]
         self.strs = [o for o in prog.outs if o[0] == "str"]
         self.raws = [o for o in prog.outs if o[0] == "raw"]
+        self.bufs = self.strs + self.raws
         self.loops = []        # names (or None) of enclosing loops, innermost last
         self.loop_counter = 0
         self.in_foreach_actions = False
@@ -193,7 +196,7 @@ def int_expr(draw, env, depth=2, last_ok=False):
         opts = ["num", "num", "chr"]
         if env.ints:
             opts += ["var", "var"]
-        if env.strs:
+        if env.bufs:
             opts += ["len"]
             opts += ["idx"]
         if last_ok:
@@ -206,9 +209,9 @@ def int_expr(draw, env, depth=2, last_ok=False):
         if k == "var":
             return ("var", draw(st.sampled_from(env.ints))[1])
         if k == "len":
-            return ("len", draw(st.sampled_from(env.strs))[1])
+            return ("len", draw(st.sampled_from(env.bufs))[1])
         if k == "idx":
-            return ("idx", draw(st.sampled_from(env.strs))[1], ("num", draw(st.integers(0, 2)), "dec"))
+            return ("idx", draw(st.sampled_from(env.bufs))[1], ("num", draw(st.integers(0, 2)), "dec"))
         return ("last",)
     op = draw(st.sampled_from(["+", "+", "-", "*", "&", "|", "^", "%", "/", "<<", ">>"]))
     l = draw(int_expr(env, depth - 1, last_ok))
@@ -272,7 +275,9 @@ def action(draw, env, allow=("assign", "assignstr", "delete", "hook", "appendc",
             w = 1 if env.loops else 0
         if k == "assign" and not (env.ints or env.bools or env.enums):
             w = 0
-        if k in ("assignstr", "delete", "appendc") and not env.strs:
+        if k == "assignstr" and not env.strs:
+            w = 0
+        if k in ("delete", "appendc") and not env.bufs:
             w = 0
         if k == "hook" and not env.prog.hooks:
             w = 0
@@ -300,9 +305,9 @@ def action(draw, env, allow=("assign", "assignstr", "delete", "hook", "appendc",
         n = draw(st.integers(0, max(0, min(cap, 3))))
         return ("assignstr", tgt[1], bytes(draw(st.lists(byte_st(cfg), min_size=n, max_size=n))))
     if k == "delete":
-        return ("delete", draw(st.sampled_from(env.strs))[1])
+        return ("delete", draw(st.sampled_from(env.bufs))[1])
     if k == "appendc":
-        return ("appendc", draw(st.sampled_from(env.strs))[1], draw(int_expr(env, 1, last_ok)))
+        return ("appendc", draw(st.sampled_from(env.bufs))[1], draw(int_expr(env, 1, last_ok)))
     if k == "hook":
         return ("hook", draw(st.sampled_from(env.prog.hooks)))
     if k == "finish":
@@ -382,7 +387,7 @@ def body(draw, env, depth, n_min=1, n_max=None, need_consuming=True, first_must_
         if depth <= 0:
             for k in ("loop", "case", "optional", "try", "foreach", "if"):
                 weights[k] = 0
-        if not env.strs:
+        if not env.bufs:
             weights["append"] = 0
         if not cfg.allow_yield:
             weights["yield"] = 0
@@ -402,7 +407,7 @@ def body(draw, env, depth, n_min=1, n_max=None, need_consuming=True, first_must_
         if k == "match":
             push(("match", draw(match(cfg, closed=None if draw(st.integers(0, 3)) else True))))
         elif k == "append":
-            push(("append", draw(st.sampled_from(env.strs))[1], draw(match(cfg, allow_cat=False))))
+            push(("append", draw(st.sampled_from(env.bufs))[1], draw(match(cfg, allow_cat=False))))
         elif k == "wait":
             push(("wait", draw(match(cfg, closed=True, allow_cat=False))))
         elif k in ("appendc", "assign", "assignstr", "delete", "hook", "finish", "yield"):
@@ -573,6 +578,8 @@ def outputs(draw, cfg):
             d = bytes(draw(st.lists(st.sampled_from(ALPHA + DIGITS + [0x00, 0x80, 0xff, 0x0a]), min_size=n, max_size=n)))
             isbin = draw(st.booleans()) and n > 0
         outs.append(("str", "s%d" % i, size, term, d, isbin))
+    for i in range(draw(st.integers(*cfg.n_raws))):
+        outs.append(("raw", "r%d" % i, draw(st.sampled_from(cfg.raw_types))))
     return outs
 
 
